@@ -346,6 +346,12 @@ def block_dnf(ev, res, body, bb, lit=None, cap=48, _memo=None, _back=None, stop=
                                         d_ = ev._variant_discr(a_[1], a_[2])
                                         if d_ is not None and _rel_sat(rel, d_):
                                             pd2.append(c)
+                                    elif edge_lits is not None:
+                                        # (the caller's own reading of the test: C11 projects it onto one thread and may find it infeasible)
+                                        for conj_ in guard_dnf_pairs([(("discr", a_), rel)]):
+                                            ls_, inf_ = edge_lits(conj_)
+                                            if not inf_:
+                                                pd2.append(c | frozenset(ls_))
                                     else:
                                         extra = set()
                                         for f in implied_facts([(("discr", a_), rel)]):
